@@ -235,22 +235,11 @@ func ReplaySorter(i int, raw []byte) child.Result {
 	if kind, detail := compareSorted(&sc, removed, rows2v); kind != "" {
 		return child.Fail("sorter/rows/"+kind+"/"+fc, detail)
 	}
-	// "the two outputs contain the same rows": with unique keys they must be identical
-	// sequences; with duplicate keys each may keep another duplicate, both already judged
-	uniq := true
-	seen := map[string]bool{}
-	for _, r := range sc.In {
-		k := keyString(r, sc.Sh)
-		if seen[k] {
-			uniq = false
-		}
-		seen[k] = true
-	}
-	if uniq {
-		for j := range rows1 {
-			if strings.Join(rows1[j], "\x00") != strings.Join(rows2v[j], "\x00") {
-				return child.Fail("sorter/outputs-differ/"+fc, map[string]interface{}{"position": j, "blocks": rows2([][]string{rows1[j]}), "rows": rows2([][]string{rows2v[j]})})
-			}
+	// "the two outputs contain the same rows": the same sequence, also where a key occurs several times
+	// (which of the duplicates survives is free, but it is the same one in both outputs)
+	for j := range rows1 {
+		if j >= len(rows2v) || strings.Join(rows1[j], "\x00") != strings.Join(rows2v[j], "\x00") {
+			return child.Fail("sorter/outputs-differ/"+fc, map[string]interface{}{"position": j, "blocks": rows2([][]string{rows1[j]})})
 		}
 	}
 	if len(sc.In) == 0 && sc.Pad == 0 {
